@@ -10,6 +10,7 @@ import OG.C14.Index
 import OG.C14.Align
 import OG.C14.Shared
 import OG.C14.Tier
+import OG.C14.Schema
 
 namespace OG.C14.Ix
 
@@ -233,3 +234,42 @@ def stepM (ws : List String) : String :=
   | _ => "bad-op"
 
 end OG.C14.Tier
+
+namespace OG.C14.Sc
+
+/-- `c` ops — schema of a measurement under prunes:
+  c new <sgd> | c sg <t> → end <e> | c w <field> <groupEnd> | c prune <groupEnd>
+every op appends ` | schema [name:endHi,…] marked <0|1>`. -/
+structure CSt where
+  sgd : Int
+  s : List Fld
+  marked : Bool
+
+def dump (σ : CSt) : String :=
+  let fs := (σ.s.mergeSort fun a b => decide (a.name ≤ b.name)).map fun x => s!"{x.name}:{x.endHi}"
+  s!"schema [{",".intercalate fs}] marked {Ix.bit σ.marked}"
+
+def stepC (σ : Option CSt) (ws : List String) : Option CSt × String :=
+  match σ, ws with
+  | _, ["new", g] =>
+    match g.toInt? with
+    | some g => if 0 < g then let σ : CSt := ⟨g, [], false⟩; (some σ, "ok | " ++ dump σ) else (σ, "bad-op")
+    | none => (σ, "bad-op")
+  | some σ, ["sg", t] =>
+    match t.toInt? with
+    | some t => (some σ, s!"end {Al.trunc t σ.sgd + σ.sgd} | " ++ dump σ)
+    | none => (some σ, "bad-op")
+  | some σ, ["w", f, e] =>
+    match f.toNat?, e.toInt? with
+    | some f, some e => let σ := { σ with s := upd f (hi e) σ.s }; (some σ, "ok | " ++ dump σ)
+    | _, _ => (some σ, "bad-op")
+  | some σ, ["prune", e] =>
+    match e.toInt? with
+    | some e =>
+      let s' := clean σ.s e
+      let σ := { σ with s := s', marked := σ.marked || s'.isEmpty }
+      (some σ, "ok | " ++ dump σ)
+    | none => (some σ, "bad-op")
+  | _, _ => (σ, "bad-op")
+
+end OG.C14.Sc
